@@ -55,8 +55,9 @@ RewrittenReq(r) == [r EXCEPT !.params = "a_1"]
 ShortResp(r) == IF r.id = "notif" THEN Nothing ELSE OkResp(r.id, "mw_short")
 \* a middleware that answers everything itself, a notification too (with id null): what the chain returns is what is sent
 ShortAllResp(r) == OkResp(IF r.id = "notif" THEN "null" ELSE r.id, "mw_short")
-IsShort(k) == k \in {"short", "shortall"}
-ShortOf(k, r) == IF k = "shortall" THEN ShortAllResp(r) ELSE ShortResp(r)
+\* "drop": a middleware that answers nothing at all (UNSET) and does not call further - for calls as well as notifications
+IsShort(k) == k \in {"short", "shortall", "drop"}
+ShortOf(k, r) == IF k = "shortall" THEN ShortAllResp(r) ELSE IF k = "drop" THEN Nothing ELSE ShortResp(r)
 RewriteResp(x) == IF x.k = "resp" /\ x.body = "result" THEN [x EXCEPT !.v = "mw_rewritten"] ELSE x
 
 \* error handlers: cfg.eh = [gen |-> Seq(kind), by |-> [code -> Seq(kind)]], kind \in {"identity", "replace"}
